@@ -37,6 +37,18 @@ CHECKS = {
    technique="invariant monitor over generated histories: every backend request's offset/length/buffer address checked against the block size",
    text="Every backend request of every file of the chain, over generated histories with all block sizes and slice sizes, is checked for offset, length and buffer alignment to the configured block size.",
    note=SEQ_NOTE + " Caller buffers are 4096-aligned."),
+ "C06": dict(cat="exploration", design="DESIGN.md 6/C06",
+   technique="stateful concurrency testing: generated task batches under a choice-driven deterministic executor, per-block Wing-Gong linearizability oracle over unique write values, then flush+reopen",
+   text="Batches of 2..6 tasks issue overlapping read/write/discard/flush/shrink calls; a generated choice vector decides every task poll and every backend completion. Each 512-byte block's history must be linearizable; untouched blocks must not change; the final content must survive flush+reopen. Schedules are sampled, so this refutes but never proves.",
+   note=SEQ_NOTE + " Two known findings (discard racing other calls; slice eviction while tasks run) are tolerated by signature, see known_findings.json."),
+ "C07": dict(cat="exploration", design="DESIGN.md 6/C07",
+   technique="deterministic-schedule exploration with exact deadlock detection (no ready task, nothing in flight), step/lookup/request budgets for livelock, and Err/panic detection on valid calls",
+   text="Concurrent batches and sequential histories without faults: the executor reports deadlock exactly, budgets (orders of magnitude above terminating runs) flag livelock suspects, and any Err/panic from a valid call is a spurious failure.",
+   note=SEQ_NOTE + " Liveness is only refuted. Known findings tolerated by signature: eviction while tasks run; discard racing other calls."),
+ "C18": dict(cat="exploration", design="DESIGN.md 6/C18",
+   technique="invariant sampling at quiescent points of generated concurrent and sequential histories: need_flush_meta()==false => copied file passes the independent checker and reopens to the same content",
+   text="At every quiescent point need_flush_meta() is sampled; when false the file is copied, judged by the independent strict checker, reopened and swept against the live content.",
+   note=SEQ_NOTE + " Known finding tolerated by signature: eviction while tasks run."),
 }
 
 ALL = ["C%02d" % i for i in range(1, 21)]
